@@ -83,6 +83,15 @@ def amounts(d):
     out += [(lst1, 0.0), (0.0, lst2), (lst1, lst2), (zero_some, lst1)]
     if d >= 2:
       out += [([2.0] + [0.0] * (d - 1), [0.0] * (d - 1) + [1.0])]
+      # every zero / non-zero pattern of the per-dimension amounts, l1 and l2 independently
+      # (a zero in the first, a middle or the last dimension takes different branches)
+      for m1 in itertools.product([0, 1], repeat=d):
+        for m2 in itertools.product([0, 1], repeat=d):
+          if not any(m1) and not any(m2):
+            continue
+          pair = ([m * 0.5 * (k + 1) for k, m in enumerate(m1)], [m * (1.0 + 0.5 * k) for k, m in enumerate(m2)])
+          if pair not in out:
+            out.append(pair)
   return out
 
 
